@@ -11,6 +11,7 @@ import (
 	"os"
 	"strconv"
 	"strings"
+	"time"
 )
 
 type vpReplayVal struct {
@@ -225,6 +226,14 @@ func vpMustBlock()    {}
 func vpMustBlockEnd() {}
 func vpBlockedOK()    {}
 func vpYield()        {}
+
+// vpQuiesce blocks until every other goroutine of the harness is blocked or finished (exact under
+// the executor; natively approximated by a pause).
+func vpQuiesce() { time.Sleep(30 * time.Millisecond) }
+
+// vpLiveGoroutines: goroutines started by the harness that have not finished (executor only;
+// natively unknown: 0).
+func vpLiveGoroutines() int { return 0 }
 
 // vpMaxAllocSize: the largest allocation made from a symbolic (file-borne) size on this path.
 // Natively unknown: 0.
